@@ -27,7 +27,7 @@ def run(ctx):
     ]
     ctx.assumptions += ["float64 division is correctly rounded (monotone)", "last-submit time is kept at one-second granularity by the code (Mean counter); the model uses that truncated instant",
                         "target hashrate > 0"]
-    L.regen(ctx, ["C10"])
+    L.regen(ctx, ["C10", "Wiring"])
     L.prove(ctx)
     if not L.build_driver(ctx):
         return
